@@ -1562,7 +1562,8 @@ impl TransactionBuilder {
     }
 
     pub fn get_reference_inputs(&self) -> TransactionInputs {
-        let mut inputs: HashSet<TransactionInput> = HashSet::new();
+        // an ordered set: the built body must not depend on hash iteration order
+        let mut inputs: BTreeSet<TransactionInput> = BTreeSet::new();
 
         let mut add_ref_inputs_set = |ref_inputs: TransactionInputs| {
             for input in &ref_inputs {
